@@ -9,10 +9,10 @@ from symx.load import repo
 
 BODIES = ["ls -l", "ls  -la   /tmp", "echo --opt=val -x 1e5x a.b/c ..", "echo $HOME", "echo $HOME/x", "echo x$HOME", "echo @(1 + 2)", "echo pre@(x)post", "echo @$(which ls)",
           "ls $(pwd)", "echo 'a b' \"c\"", "echo a'b c'd", "ls | grep x", "a && b", "a; b", "echo hi > out.txt", "echo hi 2>&1", "sleep 1 &", "cd ..", "x=1 y", "echo é ü",
-          "echo 1 2.5 0x1f 08 1_ 1..2", "echo -1 +2 *3", "echo a,b a:b a=b", "ls\t-l", "echo ~ ~/x %d ^x", "echo @ a@b", "echo $A$B", "echo $(a b)$(c)", "echo ![x y]",
+          "echo 1 2.5 0x1f 08 1_ 1..2", "echo -1 +2 *3", "echo a,b a:b a=b", "ls\t-l", "echo a\nb", "git commit\n-m msg\n--amend", "echo a\n  b", "cp a@(x)b.c dest", "tar czf @(name).tar.gz src", "@$(which python)/bin/x y", "echo ~ ~/x %d ^x", "echo @ a@b", "echo $A$B", "echo $(a b)$(c)", "echo ![x y]",
           "git commit -m 'msg here'", "echo a=$HOME", "echo $HOME:$PATH", "echo *.py **/*.txt", "echo <in >out", "echo a<b", "echo :=", "echo -> =>", "echo // ** <<= >>=",
           "echo $[inner x]", "echo !(obj y)", "echo print exec match case type _", "a", "a b c d e f", "-", "$X", "@(x)", "@$(y)", "$(z)"]
-ALPHABET = "abZ019_-./=:,+%^~*<>|&;@é \t$"
+ALPHABET = "abZ019_-./=:,+%^~*<>|&;@é \t\n$"
 FORM_KEYS = list(oracles2.FORMS)
 
 
